@@ -10,7 +10,7 @@ import traceback
 
 VERIF = os.path.dirname(os.path.dirname(os.path.abspath(__file__)))
 REPO = os.environ.get('VERIF_REPO', '/repo')
-REAL_PY = '/venv/bin/python'
+REAL_PY = os.path.join(VERIF, '.venv', 'bin', 'python')   # same interpreter as /venv/bin/python (+ z3); miasmx NOT instrumented
 EXIT_OK, EXIT_VIOLATION, EXIT_HARNESS = 0, 1, 3
 
 
@@ -165,6 +165,8 @@ def finish(prop, tier, seed, level, t0, coverage, assumptions, candidates, harne
                 known_hit.append(cnd)
             else:
                 confirmed.append(cnd)
+        elif rc == 0 and cnd.get('soft'):
+            inconclusive.append('candidate %s did not reproduce concretely (time-based, soft)' % k)
         elif rc == 0:
             not_repro.append(cnd)
             harness_errors.append('candidate %s did not reproduce on the real code (%s)' % (k, path))
